@@ -27,6 +27,8 @@ type c20Case struct {
 	SetFields   string `json:"set_fields"`
 	NilReceiver bool   `json:"nil_receiver"`
 	Constructor bool   `json:"constructor"`
+	ArgVariant  int    `json:"arg_variant"` // index into the cross product of per-parameter menus (0 = all distinctive)
+	Args        string `json:"args,omitempty"`
 }
 
 type c20Env struct {
@@ -38,6 +40,7 @@ type c20Env struct {
 	calls    []*c20Call
 	ctorErr  error
 	ctorHits int
+	vecs     [][][]reflect.Value
 }
 
 type c20Call struct {
@@ -121,6 +124,39 @@ func c20Result(t reflect.Type, k int) reflect.Value {
 	return v
 }
 
+// c20ArgMenu returns the small menu of values for one parameter: a
+// distinctive value first, then the boundary values a shortcut could key on.
+func c20ArgMenu(t reflect.Type, k int) []reflect.Value {
+	d := c20Arg(t, k)
+	z := reflect.New(t).Elem()
+	switch {
+	case t.Kind() == reflect.String, t == reflect.TypeOf(ociregistry.Descriptor{}):
+		return []reflect.Value{d, z}
+	case t.Kind() == reflect.Slice:
+		return []reflect.Value{d, z}
+	case t.Kind() == reflect.Int64 || t.Kind() == reflect.Int:
+		m := reflect.New(t).Elem()
+		m.SetInt(-1)
+		return []reflect.Value{d, z, m}
+	}
+	return []reflect.Value{d}
+}
+
+// c20ArgVectors enumerates the cross product of the parameter menus.
+func c20ArgVectors(m reflect.Method) [][]reflect.Value {
+	vecs := [][]reflect.Value{nil}
+	for j := 1; j < m.Type.NumIn(); j++ {
+		var next [][]reflect.Value
+		for _, alt := range c20ArgMenu(m.Type.In(j), j) {
+			for _, v := range vecs {
+				next = append(next, append(append([]reflect.Value(nil), v...), alt))
+			}
+		}
+		vecs = next
+	}
+	return vecs
+}
+
 func c20Arg(t reflect.Type, k int) reflect.Value {
 	v := reflect.New(t).Elem()
 	switch {
@@ -183,9 +219,22 @@ func (e *c20Env) fieldNames(mask uint32) string {
 }
 
 // run executes one case; returns fingerprint-suffix/expected/observed on failure.
-func (e *c20Env) run(r *vcore.Run, mi int, mask uint32, nilRecv, ctor bool) {
+func (e *c20Env) run(r *vcore.Run, mi int, mask uint32, nilRecv, ctor bool, variant int) {
 	m := e.methods[mi]
-	c := c20Case{Method: m.Name, Mask: mask, SetFields: e.fieldNames(mask), NilReceiver: nilRecv, Constructor: ctor}
+	if e.vecs == nil {
+		e.vecs = make([][][]reflect.Value, len(e.methods))
+	}
+	if e.vecs[mi] == nil {
+		e.vecs[mi] = c20ArgVectors(m)
+	}
+	if variant < 0 { // "last" = every parameter at its last (most degenerate) menu entry
+		variant = len(e.vecs[mi]) - 1
+	}
+	vec := e.vecs[mi][variant%len(e.vecs[mi])]
+	c := c20Case{Method: m.Name, Mask: mask, SetFields: e.fieldNames(mask), NilReceiver: nilRecv, Constructor: ctor, ArgVariant: variant}
+	if variant != 0 {
+		c.Args = c20ShowArgs(vec)
+	}
 	own := !nilRecv && mask&(1<<mi) != 0
 	fp := fmt.Sprintf("C20/%s/own-%s", m.Name, map[bool]string{true: "set", false: "unset"}[own])
 	var recv reflect.Value
@@ -210,10 +259,7 @@ func (e *c20Env) run(r *vcore.Run, mi int, mask uint32, nilRecv, ctor bool) {
 		cl.hits, cl.args = 0, nil
 	}
 	e.ctorHits = 0
-	args := []reflect.Value{recv}
-	for j := 1; j < m.Type.NumIn(); j++ {
-		args = append(args, c20Arg(m.Type.In(j), j))
-	}
+	args := append([]reflect.Value{recv}, vec...)
 	var out []reflect.Value
 	if r.Guard("", fp, c, func() { out = m.Func.Call(args) }) {
 		r.Outcome("panic")
@@ -303,6 +349,14 @@ func (e *c20Env) run(r *vcore.Run, mi int, mask uint32, nilRecv, ctor bool) {
 	}
 }
 
+func c20ShowArgs(vec []reflect.Value) string {
+	var s []string
+	for _, a := range vec[1:] {
+		s = append(s, fmt.Sprintf("%#v", a.Interface()))
+	}
+	return strings.Join(s, ", ")
+}
+
 func c20Show(out []reflect.Value) string {
 	var s []string
 	for _, o := range out {
@@ -320,6 +374,16 @@ func c20Check(r *vcore.Run) vcore.Coverage {
 	n := len(probe.fields)
 	all := uint32(1)<<n - 1
 	var masks []uint32
+	full := map[uint32]bool{} // masks that get the full argument cross product
+	{
+		full[0], full[all] = true, true
+		for i := 0; i < n; i++ {
+			full[1<<i], full[all&^(1<<i)] = true, true
+			for j := 0; j < n; j++ {
+				full[1<<i|1<<j], full[all&^(1<<i|1<<j)] = true, true
+			}
+		}
+	}
 	if r.Thorough() {
 		masks = make([]uint32, 0, 1<<n)
 		for m := uint32(0); m <= all; m++ {
@@ -353,11 +417,22 @@ func c20Check(r *vcore.Run) vcore.Coverage {
 		for k := shard; k < len(masks); k += w {
 			mask := masks[k]
 			for mi := range e.methods {
+				nvar := 2 // all-distinctive and all-degenerate argument vectors
+				if full[mask] {
+					e.run(r, mi, mask, false, false, 0)
+					nvar = len(e.vecs[mi])
+				}
 				for _, ctor := range []bool{false, true} {
-					e.run(r, mi, mask, false, ctor)
-					ev++
-					if mask != 0 && mask != all {
-						nt++
+					for v := 0; v < nvar; v++ {
+						variant := v
+						if !full[mask] && v == 1 {
+							variant = -1
+						}
+						e.run(r, mi, mask, false, ctor, variant)
+						ev++
+						if mask != 0 && mask != all {
+							nt++
+						}
 					}
 				}
 			}
@@ -366,15 +441,18 @@ func c20Check(r *vcore.Run) vcore.Coverage {
 		atomic.AddInt64(&nontrivial, nt)
 	})
 	for mi := range probe.methods {
-		probe.run(r, mi, 0, true, false)
-		evals++
+		probe.run(r, mi, 0, true, false, 0)
+		for v := range probe.vecs[mi] {
+			probe.run(r, mi, 0, true, false, v)
+			evals++
+		}
 	}
 	r.Sample("assignment", c20Case{Method: "GetBlob", Mask: 1, SetFields: probe.fieldNames(1), Constructor: true})
 	r.Sample("nil-receiver", c20Case{Method: "Referrers", NilReceiver: true})
 	r.Assume = []string{"function fields are discovered by reflection over ociregistry.Funcs; method = field name without the trailing underscore"}
 	return vcore.Coverage{
 		Evaluations: evals, Nontrivial: nontrivial,
-		Rule:       fmt.Sprintf("methods(%d) x set/unset assignments(%d of %d) x {no constructor, constructor} + nil receiver; non-trivial = assignment is neither all-set nor all-unset (distinct by construction)", n, len(masks), 1<<n),
+		Rule:       fmt.Sprintf("methods(%d) x set/unset assignments(%d of %d) x {no constructor, constructor} x argument vectors (cross product of per-parameter menus {distinctive, zero, -1} for none/all/single/pair assignments and their complements; distinctive + all-degenerate vectors for the rest) + nil receiver; non-trivial = assignment is neither all-set nor all-unset (distinct by construction)", n, len(masks), 1<<n),
 		Exhaustive: r.Thorough(),
 		Extra:      map[string]any{"methods": n, "assignments": len(masks)},
 	}
@@ -388,7 +466,7 @@ func c20Replay(r *vcore.Run, sub string, raw json.RawMessage) {
 	e := newC20Env()
 	for mi, m := range e.methods {
 		if m.Name == c.Method {
-			e.run(r, mi, c.Mask, c.NilReceiver, c.Constructor)
+			e.run(r, mi, c.Mask, c.NilReceiver, c.Constructor, c.ArgVariant)
 		}
 	}
 }
